@@ -639,7 +639,10 @@ def unsafe_family():
             fam += [{u: 1}, {u}, frozenset([u]), {(1, u): 2}]
         except TypeError:
             pass
-    safe = [[1, "a"], (1, (2.5, None)), {"k": [1, 2]}, {1: {"a": (True,)}}, {1, 2}, frozenset(["a"]), {"k": range(3)}, [..., NotImplemented], {"k": 1j}]
+    # set / frozenset are not in the must-accept family: their text depends on the hash seed, and since the C30 repair
+    # (/repo 16d1781) has_safe_repr rejects them; if a version accepts them the repr must still evaluate back
+    fam += [{1, 2}, frozenset(["a"]), [{1, 2}], {"k": frozenset([1])}]
+    safe = [[1, "a"], (1, (2.5, None)), {"k": [1, 2]}, {1: {"a": (True,)}}, {"k": range(3)}, [..., NotImplemented], {"k": 1j}]
     return fam, safe
 
 
